@@ -5,10 +5,16 @@
    patterns: a pattern variable is a function of the environment, binders update the environment,
    b[(var $x) := t] evaluates b with $x bound to the value of t; the rule pool FPPOOL / FPPOOL_text).
    PROVED, for every modulus p > 0 (Sem/FpFacts.v):
-   - C03_pool_valid: the 24 rules of the pool (commutativity, associativity, distributivity, units, linearity
+   - C03_pool_valid: the 34 rules of the pool (commutativity, associativity, distributivity, units, linearity
      of sum, factors out of / into a sum under slot_free_in, swapping sums, let as substitution, re-binding
-     under a new binder, dropping an unused let, ...) are valid under every valuation of the pattern variables
-     that ignores the rule's fresh (right-hand-side-only) slots and satisfies the rule's condition;
+     under a new binder, dropping an unused let, ...; rules 24-33 are guarded by conditions built with the
+     library's combinators and / or / not over slot_free_in) are valid under every valuation of the pattern
+     variables that ignores the rule's fresh (right-hand-side-only) slots and for which the facts guaranteed by
+     the truth of the rule's condition hold ([cond_sem true]: slot_free_in true => independence, slot_free_in
+     false => nothing; and / or / not as connectives, not swapping the two readings);
+   - C03_guards_needed: the conditions of rules 24-27, 29, 31-33 are needed: with `and` read as `or`, `or` read as
+     `and`, or `not` dropped (SLIP_WITNESSES) the rule is invalid in F_2, witnessed by a match on which the
+     correct condition is false, the slipped one true, and the two sides differ;
    - C03_pool_text: the texts handed to Rewrite::new / new_if parse (model of the crate's parser) to those patterns;
    - C03_instantiation: the value of a capture-avoiding instance of a pattern is the pattern semantics under
      the valuation induced by the matched terms; C03_canonical: the named semantics is [eval] of the canonical term;
@@ -25,6 +31,10 @@ Theorem C03_pool_valid : forall p, p <> 0 -> forall r, In r FPPOOL ->
   forall env, peval p rho env (fr_lhs r) = peval p rho env (fr_rhs r).
 Proof. exact fppool_valid. Qed.
 Print Assumptions C03_pool_valid.
+
+Theorem C03_guards_needed : forall w, In w SLIP_WITNESSES -> ~ rule_valid 2 (slipped w).
+Proof. exact fppool_guards_needed. Qed.
+Print Assumptions C03_guards_needed.
 
 Theorem C03_pool_text : map parse_frule FPPOOL_text = map Some FPPOOL.
 Proof. exact fppool_text_parses. Qed.
